@@ -105,7 +105,9 @@ func c17Operator(r *Run, c *Case, rng *Rng) {
 		c.Oracle("opflag what=ticks-accepted ok=false")
 		return
 	}
+	t0 := time.Now()
 	op.Shutdown() // returns when every queue shows "stop" or after WaitQueuesTimeout (shortened by the suite)
+	took := time.Since(t0)
 	// A queue that shows "stop" has no hook process any more (the handler runs the hook synchronously, the
 	// worker sets the status after its last handler returned): a line its hooks write after the status was
 	// seen is an execution after the worker's exit. For a queue that does not show "stop" yet, the marker of
@@ -207,6 +209,10 @@ func c17Operator(r *Run, c *Case, rng *Rng) {
 	}
 	c.Oracle(fmt.Sprintf("weakstop q=%s ev=%s", joinInts(qs), joinStrs(ev)))
 	c.Oracle(fmt.Sprintf("terminated q=%s ev=%s", joinInts(qs), joinStrs(ev)))
+	if midRun {
+		// h1 was inside its handler for the whole call: the wait for the queues cannot have ended before its timeout
+		c.Oracle(fmt.Sprintf("shutdownwaits busy=%d early=%v", hooks[0].queueNo, took < shell_operator.WaitQueuesTimeout))
+	}
 	c.Nontrivial = true
 	if midRun {
 		c.Note("kind:whole-operator-shutdown-mid-run")
